@@ -1,7 +1,7 @@
 (* Props/C18.v — property C18: the convex-hull routines return the true hull.
    Only statements, each closed by `exact`, with its assumptions printed. *)
 From Coq Require Import Reals ZArith List Arith Bool Permutation Sorted PrimFloat.
-From Knee Require Import Num NumFloat NumR NpList Model.Hull Model.HullExact Proofs.ListFacts Proofs.HullScan Proofs.HullFacts Proofs.HullCorrect Proofs.HullExactFacts Proofs.HullGraham.
+From Knee Require Import Num NumFloat NumR NpList Model.Hull Model.HullExact Proofs.ListFacts Proofs.HullScan Proofs.HullFacts Proofs.HullCorrect Proofs.HullExactFacts Proofs.HullGraham Proofs.HullGrahamFull.
 Import ListNotations.
 
 (* ---- Tier S: every Num, every orientation oracle cc (so: the doubles _ccw really computes, NaN included) *)
@@ -109,17 +109,20 @@ Theorem C18_upper_hull_correct_exact : forall zpts : list (Z * Z),
 Proof. exact upper_hull_correct_exact. Qed.
 Print Assumptions C18_upper_hull_correct_exact.
 
-(* graham_general_position — PARTIAL.  Proved (real arithmetic, >= 3 distinct points, no three collinear, every
-   distance oracle): graham_scan completes; its pivot is the lexicographically smallest point (leftmost, then lowest);
-   the comparator sort puts the other points in strictly clockwise order around the pivot; the result starts at the
-   pivot, is a subsequence of that order, and ALL its consecutive triples turn strictly clockwise.
-   Full statement, NOT proved (judged per case in the correspondence run, exact arithmetic, conjunct 4 of the judge):
-     forall pts dist, distinctb pts = true -> general_positionb pts = true -> 3 <= length pts ->
-       exists out, graham_scan pts dist = Some out /\ graham_gpb pts out = true
-   i.e. additionally the turns closing the polygon at the pivot are clockwise and the result is exactly the set of
-   extreme vertices.  The degenerate clause (graham_degenb: every extreme vertex returned, only boundary points) is a
-   per-case TEST against the brute-force hull evaluated inside Coq (conjunct 3 of the judge), not a theorem. *)
-Theorem C18_graham_general_position_partial : forall (pts : list (R * R)) (dist : nat -> R),
+(* graham_general_position: real arithmetic, >= 3 pairwise distinct points, no three collinear, EVERY distance oracle:
+   graham_scan completes and graham_gpb holds of its result, i.e. the returned indices are exactly the extreme vertices of
+   the convex hull (brute force: a supporting line through the point and another input point, and not strictly between
+   two input points), the first is the pivot the code selects, and the closed polygon turns strictly clockwise *)
+Theorem C18_graham_general_position : forall (pts : list (R * R)) (dist : nat -> R),
+  @distinctb RNum pts = true -> @general_positionb RNum pts = true -> 3 <= length pts ->
+  exists out, @graham_scan RNum pts dist = Some out /\ @graham_gpb RNum pts out = true.
+Proof. exact graham_general_position. Qed.
+Print Assumptions C18_graham_general_position.
+
+(* ... with the structure behind it: the pivot is the lexicographically smallest point (leftmost, then lowest), the
+   comparator sort arranges the other points strictly clockwise around it, the result is a subsequence of that
+   arrangement, and all its consecutive triples turn strictly clockwise *)
+Theorem C18_graham_angular_structure : forall (pts : list (R * R)) (dist : nat -> R),
   @distinctb RNum pts = true -> @general_positionb RNum pts = true -> 3 <= length pts ->
   exists sp out, @graham_sorted RNum pts dist = Some sp /\ @graham_scan RNum pts dist = Some out /\
     let p0 := @pivot_min RNum pts in
@@ -129,7 +132,14 @@ Theorem C18_graham_general_position_partial : forall (pts : list (R * R)) (dist 
     (exists pos, SI pos /\ out = map (fun p => nth p sp 0) pos) /\
     tripb (fun a b c => @negt RNum (@ccw_idx RNum pts a b c)) out = true.
 Proof. exact graham_general_position_partial. Qed.
-Print Assumptions C18_graham_general_position_partial.
+Print Assumptions C18_graham_angular_structure.
+
+(* The degenerate-input clause of graham_scan ("every extreme vertex is returned and only boundary points are", collinear
+   triples allowed) is NOT a theorem here: C18_graham_total gives its structural part (completes, valid indices, no
+   duplicates, from the pivot), and graham_degenb is evaluated per case against the brute-force hull inside Coq
+   (conjunct 3 of Run/JudgeC18.judge, exact integer arithmetic) — a test, labelled as such.  Full statement:
+     forall pts dist, distinctb pts = true -> 3 <= length pts -> (dist orders collinear points by distance from the pivot) ->
+       exists out, graham_scan pts dist = Some out /\ graham_degenb pts out = true.                                   *)
 
 (* non-vacuity: concrete inputs meeting the hypotheses, evaluated (exact integers / doubles) *)
 Example C18_example_chain :
